@@ -1,4 +1,5 @@
 import Prom.Lemmas.RegistryInv
+import Prom.Lemmas.C06Conc
 
 namespace Prom.C06
 open Prom
@@ -234,5 +235,34 @@ example : WellKeyedHist (({} : Reg), []) [.reg ⟨[dB], []⟩, .reg ⟨[dA, dA']
   intro p hp hc
   revert p
   decide +kernel
+
+
+/-! ### calls from several threads -/
+
+/-- states reachable by the replay machine of one registry used from any number of threads (each
+    `register` / `unregister` one critical section under the write lock, each `gather` one under the
+    read lock), for any interleaving -/
+inductive RReach (colls : List Coll) (prog : List (List String)) : RM.St → Prop
+  | init : RReach colls prog (RM.init colls prog)
+  | step {s s' it} : RReach colls prog s → RM.item s it = .ok s' → RReach colls prog s'
+
+/-- **registry_linearizable** — for every accepted run: the registry is exactly what the sequential
+    model (`Reg.register` / `Reg.unregister` / `Reg.gather`, to which `register_ok_iff`,
+    `register_fail_noop` and `admission_exact` apply) yields when the committed calls are executed one
+    at a time in commit order, and every call returned what the model returns at its place. Each call
+    commits at its lock acquisition - a step of the call itself -, so the order is consistent with real
+    time: calls racing on one name are admitted exactly as if they had come one after the other. -/
+theorem registry_linearizable {colls : List Coll} {prog : List (List String)} {s : RM.St}
+    (h : RReach colls prog s) : s.colls = colls ∧ specRunR colls {} s.lin = some s.reg := by
+  induction h with
+  | init => exact ⟨rfl, by simp [RM.init, specRunR]⟩
+  | step _ hs ih =>
+    obtain ⟨hc, hl⟩ := ih
+    cases rItem_trans hs with
+    | frame hc' hr hl' => exact ⟨hc'.trans hc, by rw [hr, hl']; exact hl⟩
+    | eff t op hc' hr hl' =>
+      refine ⟨hc'.trans hc, ?_⟩
+      rw [hr, hl']
+      simp only [RM.rEff, specRunR_append, hl, Option.bind_some, specRunR, hc, if_true]
 
 end Prom.C06
